@@ -79,11 +79,11 @@ func c05Gen(tier string, seed int64) []core.Case {
 				if tier == "thorough" {
 					for _, how := range kinds {
 						for _, pos := range poss {
-							add(faultSpec{fi.Type, fi.Field, ix, how, pos}, "field")
+							add(faultSpec{fi.Type, fi.Field, ix, how, pos, false}, "field")
 						}
 					}
 				} else {
-					add(faultSpec{fi.Type, fi.Field, ix, kinds[k%len(kinds)], poss[(k/4)%len(poss)]}, "field")
+					add(faultSpec{fi.Type, fi.Field, ix, kinds[k%len(kinds)], poss[(k/4)%len(poss)], false}, "field")
 					k++
 				}
 			}
@@ -104,7 +104,7 @@ func c05Gen(tier string, seed int64) []core.Case {
 			if !hasContent {
 				continue // the ACK messages carry nothing: a mirrored ACK is byte-identical to an honest one
 			}
-			add(faultSpec{sp.Short, "*", "", "mirror", poss[k%3]}, "mirror")
+			add(faultSpec{sp.Short, "*", "", "mirror", poss[k%3], false}, "mirror")
 			k++
 		}
 		if strings.HasSuffix(sc.proto, "signing") || strings.HasSuffix(sc.proto, "resharing") {
